@@ -24,11 +24,13 @@ Fixpoint absv (o : obj) : aval :=
   | Vec xs => AVec (map absv xs)
   end.
 
-(** well-formed representations: a bignum has sign 1/-1, at least one word, words < 2^64, value <> 0 *)
+(** well-formed representations: a bignum has sign 1/-1, at least one word, words < 2^64, value <> 0;
+    a string's offset + size lies inside its byte store *)
 Definition wf_big (s : Z) (ws : list Z) : Prop := (s = 1 \/ s = -1) /\ words ws /\ ws <> [] /\ val ws <> 0.
 Fixpoint wf (o : obj) : Prop :=
   match o with
   | Big s ws => wf_big s ws
+  | Str st off len => (off + len <= length st)%nat
   | Pair a d => wf a /\ wf d
   | Vec xs => fold_right (fun x P => wf x /\ P) True xs
   | _ => True
